@@ -6,6 +6,7 @@ import ioops
 import iomodel
 from praatio.utilities import my_math
 
+ESCALATE_MAX = 60000      # cases drawn at most when a changed source file makes the quick tier look harder
 RULE = ("random well-formed textgrids (1-3 interval/point tiers, 0-4 entries; labels from an adversarial pool: quotes, doubled "
         "quotes, runs of quotes at either end, newlines, '=', digits, brackets, backslash, non-ASCII, astral; times: 1-6 digit "
         "decimals, integers, integers x (1 +- 10^-k) for k=9..16, integers +-1..2 ulp, k/64, powers of ten from 1e-17 to 1e15, "
